@@ -10,18 +10,18 @@ open HW.Proc
     all scripts, all placements of the panics). -/
 theorem restarts_bounded (max mw : Nat) (script : List Outcome) (batches : List (List Msg)) :
     restartsOK max (runHistory max mw script batches).1.trace = true :=
-  restarts_ok max mw script batches
+  Shape.restarts_ok max mw script batches
 
 /-- the next panic terminates it instead: after ActorMaxRestartsExceededEvent the inbox is stopped,
     the actor unregistered, Stopped handled once, ActorStoppedEvent published, and nothing follows. -/
 theorem terminates_cleanly (max mw : Nat) (script : List Outcome) (batches : List (List Msg)) :
     afterMaxOK (runHistory max mw script batches).1.trace = true :=
-  after_max_ok max mw script batches
+  Shape.after_max_ok max mw script batches
 
 /-- … and the hosting process keeps running: the panic does not escape. -/
 theorem process_survives (max mw : Nat) (script : List Outcome) (batches : List (List Msg)) :
     (runHistory max mw script batches).2 = none :=
-  runHistory_no_escape max mw script batches
+  Shape.runHistory_no_escape max mw script batches
 
 /-- the default budget in the source is the one documented. -/
 theorem default_budget : Generated.defaultMaxRestarts = 3 := by decide
